@@ -10,8 +10,11 @@
 //!        | m push_param(HashMap<String,item>) | n push_param(Vec<(u64,item)>) | p push_params(&[item])
 //!        | q push_param2..5 | g push_param((&[u8; 300000], item)) | o push_old_param(Param) (single UnixFd)
 //!        | w push_variant(item) | z push_param(Vec<Variant<item>>)
-//!   R<b> reset   D<b> drop body   S<b> conn.send.send_message(&msg).write_all(); the peer reads the
-//!        message off the raw socket (recvmsg, room for 253 descriptors per call) and keeps it "in flight"
+//!   R<b> reset   D<b> drop body   S<b>[:hdr|:bnd] conn.send.send_message(&msg), then write_once(Nonblock) while the
+//!        peer is not reading, peer reads, write resumed, ... ; the peer reads the message off the raw socket (recvmsg,
+//!        room for 253 descriptors per call, EVERY descriptor of every call kept) and keeps it "in flight".
+//!        :hdr = send buffer shrunk to the kernel minimum and a 40 kB object path, so the first write ends inside the
+//!        header; :bnd = header sized so that the first write ends exactly at the header/body boundary
 //!   I<cs>:<idxs>  the peer crafts a message (signature hhh.., indices idxs) carrying dups of slots cs
 //!   V  the peer writes the oldest in-flight message (descriptors attached to the first sendmsg) while
 //!        conn.recv.get_next_message() runs; the received message becomes a new body
@@ -555,7 +558,144 @@ fn send_all(peer: &UnixStream, bytes: &[u8], fds: &[RawFd]) -> Result<(), String
     Ok(())
 }
 
-fn do_send(w: &mut World, b: usize) -> String {
+/// one recvmsg on the peer's end: whatever is there (at least one byte), with its descriptors
+fn recv_some(peer: &UnixStream, max: usize) -> Result<(Vec<u8>, Vec<RawFd>), String> {
+    let mut cm = nix::cmsg_space!([RawFd; 253]);
+    let mut buf = vec![0u8; max];
+    peer.set_read_timeout(Some(HANG)).ok();
+    let mut iov = [IoSliceMut::new(&mut buf[..])];
+    let m = recvmsg::<()>(peer.as_raw_fd(), &mut iov, Some(&mut cm), MsgFlags::empty())
+        .map_err(|e| format!("peer recvmsg: {}", e))?;
+    let n = m.bytes;
+    let mut fds = Vec::new();
+    for c in m.cmsgs() {
+        if let ControlMessageOwned::ScmRights(r) = c {
+            fds.extend(r);
+        }
+    }
+    if n == 0 {
+        return Err("peer: connection closed".into());
+    }
+    buf.truncate(n);
+    Ok((buf, fds))
+}
+
+fn sndbuf(fd: RawFd) -> usize {
+    let b = unsafe { std::os::fd::BorrowedFd::borrow_raw(fd) };
+    nix::sys::socket::getsockopt(&b, nix::sys::socket::sockopt::SndBuf).unwrap_or(0)
+}
+fn set_sndbuf(fd: RawFd, v: usize) {
+    let b = unsafe { std::os::fd::BorrowedFd::borrow_raw(fd) };
+    let _ = nix::sys::socket::setsockopt(&b, nix::sys::socket::sockopt::SndBuf, &v);
+}
+
+#[derive(Clone, Copy, PartialEq)]
+enum SendMode {
+    Plain,
+    /// the header is made larger than the (shrunk) socket send buffer: the first write_once ends inside
+    /// the header while the peer is not reading; every later write is a resumed write
+    Header,
+    /// like Header, but the header is made exactly as long as what the first write_once gets accepted, so
+    /// the first write ends exactly at the header/body boundary
+    Boundary,
+}
+
+/// what a first nonblocking write gets accepted on the (shrunk) empty socket: a calibration message
+/// without descriptors, read and discarded by the peer (not part of the history)
+fn calibrate_first_write(w: &mut World) -> Option<usize> {
+    let mut m = MessageBuilder::new()
+        .signal("io.verif.C11", "Cal", format!("/{}", "c".repeat(100_000)))
+        .build();
+    m.dynheader.serial = NonZeroU32::new(78);
+    let mut hdr = Vec::new();
+    rustbus::wire::marshal::marshal(&m, NonZeroU32::new(78).unwrap(), &mut hdr).ok()?;
+    let total = hdr.len() + m.get_buf().len();
+    let mut ctx = w.conn.send.send_message(&m).ok()?;
+    let first = ctx.write_once(Timeout::Nonblock).ok()?;
+    let mut got = 0;
+    let mut guard = 0;
+    while !ctx.all_bytes_written() {
+        guard += 1;
+        if guard > 1_000_000 {
+            ctx.force_finish();
+            return None;
+        }
+        match ctx.write_once(Timeout::Nonblock) {
+            Ok(_) => {}
+            Err(rustbus::connection::Error::IoError(e)) if e.kind() == std::io::ErrorKind::WouldBlock => match recv_some(&w.peer, 65536) {
+                Ok((b, f)) => {
+                    got += b.len();
+                    for x in f {
+                        let _ = nix::unistd::close(x);
+                    }
+                }
+                Err(_) => {
+                    ctx.force_finish();
+                    return None;
+                }
+            },
+            Err(_) => {
+                ctx.force_finish();
+                return None;
+            }
+        }
+    }
+    drop(ctx);
+    if got < total {
+        recv_all(&w.peer, total - got, None).ok()?;
+    }
+    Some(first)
+}
+
+fn do_send(w: &mut World, b: usize, mode: SendMode) -> String {
+    if w.bods.get(b).map(|x| x.is_none()).unwrap_or(true) {
+        return "\"res\":\"invalid\"".into();
+    }
+    let sfd = w.conn.send.as_raw_fd();
+    let old_sndbuf = sndbuf(sfd);
+    let old_path = w.bods[b].as_ref().unwrap().msg.dynheader.object.clone();
+    if mode != SendMode::Plain {
+        set_sndbuf(sfd, 1); // the kernel clamps this to its minimum
+        let path_len = if mode == SendMode::Boundary {
+            // header length as a function of the path length: measured on this very message
+            let first = calibrate_first_write(w);
+            let probe = |w: &mut World, n: usize| -> usize {
+                let br = w.bods[b].as_mut().unwrap();
+                br.msg.dynheader.object = Some(format!("/{}", "p".repeat(n)));
+                let mut h = Vec::new();
+                let s = br.msg.dynheader.serial.unwrap_or(NonZeroU32::MIN);
+                let _ = rustbus::wire::marshal::marshal(&br.msg, s, &mut h);
+                h.len()
+            };
+            match first {
+                Some(k) if k >= 1024 => {
+                    // the header is padded to 8: try the path lengths around the target until it fits exactly
+                    let base = probe(w, 512);
+                    let mut found = None;
+                    for n in (512 + k.saturating_sub(base)).saturating_sub(16)..(512 + k.saturating_sub(base) + 16) {
+                        if probe(w, n) == k {
+                            found = Some(n);
+                            break;
+                        }
+                    }
+                    found.unwrap_or(40_000)
+                }
+                _ => 40_000,
+            }
+        } else {
+            40_000
+        };
+        w.bods[b].as_mut().unwrap().msg.dynheader.object = Some(format!("/{}", "p".repeat(path_len)));
+    }
+    let r = do_send_inner(w, b);
+    if mode != SendMode::Plain {
+        w.bods[b].as_mut().unwrap().msg.dynheader.object = old_path;
+        set_sndbuf(sfd, old_sndbuf / 2); // the kernel doubles the value it is given
+    }
+    r
+}
+
+fn do_send_inner(w: &mut World, b: usize) -> String {
     let Some(Some(br)) = w.bods.get(b) else { return "\"res\":\"invalid\"".into() };
     let msg = &br.msg;
     let mut hdr = Vec::new();
@@ -563,13 +703,18 @@ fn do_send(w: &mut World, b: usize) -> String {
     if rustbus::wire::marshal::marshal(msg, serial, &mut hdr).is_err() {
         return "\"res\":\"err\"".into();
     }
+    let hdrlen = hdr.len();
     let total = hdr.len() + msg.get_buf().len();
     let send = &mut w.conn.send;
     let peer = &w.peer;
-    // One thread: write_once(Nonblock) until the socket buffer is full, then let the peer read some,
-    // and so on. A message larger than the socket buffer therefore takes several sendmsg calls.
+    // One thread: write_once(Nonblock) while the peer is not reading, until the socket buffer is full;
+    // then the peer reads what is there, and the write is resumed; and so on. A message (or a header)
+    // larger than the socket buffer therefore takes several sendmsg calls, all but the first resumed.
+    // The peer keeps EVERY descriptor any of its recvmsg calls delivers.
     let mut bytes: Vec<u8> = Vec::with_capacity(total);
     let mut fds: Vec<RawFd> = Vec::new();
+    let mut first: Option<usize> = None;
+    let mut writes = 0usize;
     let wres: Result<(), String> = match send.send_message(msg) {
         Err(e) => Err(format!("{:?}", e)),
         Ok(mut ctx) => {
@@ -577,19 +722,27 @@ fn do_send(w: &mut World, b: usize) -> String {
             let mut spins = 0u32;
             loop {
                 match ctx.write_once(Timeout::Nonblock) {
-                    Ok(_) => {
+                    Ok(k) => {
+                        if first.is_none() {
+                            first = Some(k);
+                        }
+                        if k > 0 {
+                            writes += 1;
+                        }
                         if ctx.all_bytes_written() {
                             break;
                         }
                     }
                     Err(rustbus::connection::Error::IoError(e)) if e.kind() == std::io::ErrorKind::WouldBlock => {
+                        if first.is_none() {
+                            first = Some(0);
+                        }
                         spins += 1;
-                        let want = std::cmp::min(65536, total - bytes.len());
-                        if want == 0 || spins > 100_000 {
+                        if bytes.len() >= total || spins > 1_000_000 {
                             r = Err("socket full although the peer has read everything".to_string());
                             break;
                         }
-                        match recv_all(peer, want, None) {
+                        match recv_some(peer, std::cmp::min(65536, total - bytes.len())) {
                             Ok((b, f)) => {
                                 bytes.extend_from_slice(&b);
                                 fds.extend(f);
@@ -628,13 +781,14 @@ fn do_send(w: &mut World, b: usize) -> String {
         }
         Err("not sent".to_string())
     };
+    let sched = format!(",\"first\":{},\"hdrlen\":{},\"writes\":{}", first.map(|x| x as i64).unwrap_or(-1), hdrlen, writes);
     match (wres, rres) {
         (Ok(()), Ok((bytes, fds))) => {
             let h = header_fds(&bytes).unwrap_or(-2);
             let n = fds.len();
             let idx = body_indices(msg).unwrap_or_default();
             w.wire.push_back(Transit { bytes, fds, shapes: br.shapes.clone(), idx });
-            format!("\"res\":\"sent:{}:{}\"", h, n)
+            format!("\"res\":\"sent:{}:{}\"{}", h, n, sched)
         }
         (Ok(()), Err(e)) => format!("\"res\":\"HARNESS {}\"", e),
         (Err(e), r) => {
@@ -886,7 +1040,12 @@ fn do_op(w: &mut World, op: &str) -> String {
         "S" => {
             let mut it = arg.split(':');
             let Some(b) = it.next().and_then(|x| x.trim().parse::<usize>().ok()) else { return "\"res\":\"BADOP\"".into() };
-            do_send(w, b)
+            let mode = match it.next().map(|x| x.trim()) {
+                Some("hdr") => SendMode::Header,
+                Some("bnd") => SendMode::Boundary,
+                _ => SendMode::Plain,
+            };
+            do_send(w, b, mode)
         }
         "I" => {
             let parts: Vec<&str> = arg.split(':').collect();
